@@ -118,6 +118,8 @@ def gen_settings(rng, names_in_map):
         s['individual'].append([n, gen_qp(rng)])
     if rng.random() < 0.85:
         pool = [0, 20, 20, 40, 60, 100, 340, 500, 1000, rng.randint(1, 2000)]
+        if rng.random() < 0.15:
+            pool = [0, 1, 1, 2, 2, 3]                  # durations of a nanosecond or two: still not "no idling"
         d = {f: rng.choice(pool) for f in DUR_FIELDS}
         r = rng.random()
         if r < 0.25:
